@@ -174,7 +174,11 @@ def modifies_known_mutable(obj: t.Any, attr: str) -> bool:
     False
     """
     for typespec, unsafe in _mutable_spec:
-        if isinstance(obj, typespec):
+        # A method looked up on the class itself is called with the
+        # object to modify as its first argument, dict.clear(d).
+        if isinstance(obj, typespec) or (
+            isinstance(obj, type) and issubclass(obj, typespec)
+        ):
             return attr in unsafe
     return False
 
